@@ -251,10 +251,15 @@ def run_session(sess: Dict[str, Any], world_dir: str, emit: Callable[[Dict[str, 
         np.random.seed(int(sess.get("env", {}).get("random_seed", 0)) % (2 ** 32))
     except Exception:  # noqa: BLE001
         pass
-    env = simenv.SimEnv(sess.get("env", {}), world_dir, emit)
+    env = simenv.current()
+    if env is not None and env._installed:
+        env.configure(sess.get("env", {}), world_dir, emit)   # seams installed by the zygote before hta was imported
+        env.active = True
+    else:
+        env = simenv.SimEnv(sess.get("env", {}), world_dir, emit)
+        env.install()
     state = State(os.path.realpath(world_dir))
     os.chdir(state.world_dir)
-    env.install()
     # ops modules register themselves on import
     from . import ops_analysis, ops_cp, ops_files, ops_symtab  # noqa: F401
     try:
